@@ -106,6 +106,7 @@ type FuncSpec struct {
 }
 
 type Define struct {
+	Rec    bool // `specdef`: a (possibly recursive) spec function, emitted as an SMT function + defining axiom
 	Name   string
 	Params []Param
 	Ret    string
@@ -127,7 +128,7 @@ type File struct {
 var clauseKW = map[string]bool{
 	"func": true, "define": true, "requires": true, "ensures": true, "modifies": true, "sets": true,
 	"pure": true, "inline": true, "abstract": true, "trusted": true, "loop": true, "assert": true, "assume": true,
-	"axiom": true, "attr": true,
+	"axiom": true, "attr": true, "specdef": true,
 }
 
 func ParseFile(path string) (*File, error) {
@@ -192,6 +193,14 @@ func ParseFile(path string) (*File, error) {
 				return nil, fail(err)
 			}
 			d.File, d.Line = path, rc.line
+			f.Defines = append(f.Defines, d)
+			continue
+		case "specdef":
+			d, err := parseDefine(rest)
+			if err != nil {
+				return nil, fail(err)
+			}
+			d.File, d.Line, d.Rec = path, rc.line, true
 			f.Defines = append(f.Defines, d)
 			continue
 		case "axiom":
